@@ -218,5 +218,7 @@ var s2sNonceKey = []string{"s2s", "nonce"}
 
 // s2sNonceStore is used by the authorization server for replay prevention by keeping track of used nonces in the s2s flow
 func (r Wrapper) s2sNonceStore() storage.SessionStore {
-	return r.storageEngine.GetSessionDatabase().GetStore(s2sMaxPresentationValidity+s2sMaxClockSkew, s2sNonceKey...)
+	// A presentation is accepted from (created - clock skew) until (expires + clock skew),
+	// so a nonce has to be remembered for the max. validity plus twice the clock skew.
+	return r.storageEngine.GetSessionDatabase().GetStore(s2sMaxPresentationValidity+2*s2sMaxClockSkew, s2sNonceKey...)
 }
